@@ -7,10 +7,10 @@ Local Open Scope Q_scope.
 (* symbolic execution of the translated methods *)
 Ltac unfold_methods :=
   unfold step, m_startConnecting, m_stopConnecting, m_reset, m__connected, m__failed, m__disconnected,
-         m__timer_expired, m__retry, m__connect, dec_inflight, dec_watching, halve_timer,
+         m__timer_expired, m__retry, m__connect, dec_inflight, dec_watching, halve_timer, user_callback,
          seq, cond, ret, set_active, set_stopped, set_tub, set_delay, set_info, timer_clear, timer_cancel,
-         timer_reset, call_later, get_reference, add_callbacks, watch, user_callback, remove_from_tub, timer_truthy.
-Ltac exec := unfold_methods; cbn [active stopped tub delay timer inflight watching leaked info fst snd app negb pred].
+         timer_reset, call_later, get_reference, add_callbacks, watch, remove_from_tub, timer_truthy.
+Ltac exec := unfold_methods; unfold_methods; cbn [active stopped tub delay timer inflight watching leaked info fst snd app negb pred uops_act].
 
 Lemma run_app : forall a b s,
   run s (a ++ b) = let (s1, o1) := run s a in let (s2, o2) := run s1 b in (s2, o1 ++ o2).
@@ -35,6 +35,62 @@ Proof.
   apply andb_true_iff in H. destruct H as [H1 H2]. split; [exact H1 | apply IH, H2].
 Qed.
 
+(* ------------------------------------------------------------------ 0. calls from inside the user callback *)
+
+(* an event whose user callback does not call back into the Reconnector *)
+Definition simple (e : event) : Prop := match e with AttemptOk (_ :: _) => False | _ => True end.
+
+Lemma uops_run : forall u s, uops_act u s = run s (map uop_event u).
+Proof.
+  induction u as [|o u IH]; intros s; [reflexivity|].
+  destruct o; cbn [uops_act map run uop_event step]; unfold seq.
+  - destruct (m_stopConnecting s) as [s1 o1]. rewrite IH. reflexivity.
+  - destruct (m_reset s) as [s1 o1]. rewrite IH. reflexivity.
+Qed.
+
+(* the callback is the last thing _connected does: whatever it calls behaves as if called right after
+   _connected returned; and it only runs if the Reconnector was active *)
+Lemma ok_reentrant : forall s u,
+  step s (AttemptOk u) =
+  if active s
+  then (let (s1, o1) := step s (AttemptOk []) in
+        let (s2, o2) := run s1 (map uop_event u) in (s2, o1 ++ o2))
+  else step s (AttemptOk []).
+Proof.
+  intros [a sp t d tm i w l inf] u. cbn [active]. destruct a; exec; [|reflexivity].
+  rewrite uops_run. unfold ret. cbn [app]. destruct (run _ (map uop_event u)) as [s2 o2]. cbn [app]. rewrite ?app_nil_r. reflexivity.
+Qed.
+
+Section Lift.
+  Context (P : st -> Prop) (O : out -> Prop) (guard : st -> event -> Prop).
+  Hypothesis g_stop : forall s, guard s Stop.
+  Hypothesis g_reset : forall s, guard s Reset.
+  Hypothesis g_ok : forall s u, guard s (AttemptOk u) -> guard s (AttemptOk []).
+  Hypothesis step0 : forall s e, simple e -> P s -> guard s e ->
+                                P (fst (step s e)) /\ Forall O (snd (step s e)).
+
+  Lemma lift_uops : forall u s, P s ->
+    P (fst (run s (map uop_event u))) /\ Forall O (snd (run s (map uop_event u))).
+  Proof.
+    induction u as [|o u IH]; intros s HP; cbn [map run]; [split; [exact HP | constructor]|].
+    assert (H : P (fst (step s (uop_event o))) /\ Forall O (snd (step s (uop_event o)))).
+    { destruct o; apply step0; cbn; auto. }
+    destruct H as [H1 H2]. destruct (step s (uop_event o)) as [s1 o1]. cbn [fst snd] in *.
+    destruct (IH s1 H1) as [H3 H4]. destruct (run s1 (map uop_event u)) as [s2 o2]. cbn [fst snd] in *.
+    split; [exact H3 | apply Forall_app; split; assumption].
+  Qed.
+
+  Lemma lift_step : forall s e, P s -> guard s e -> P (fst (step s e)) /\ Forall O (snd (step s e)).
+  Proof.
+    intros s e HP HG. destruct e as [|u| | | | | |]; try (apply step0; [exact I | assumption | assumption]).
+    rewrite ok_reentrant. pose proof (step0 s (AttemptOk []) I HP (g_ok s u HG)) as [H1 H2].
+    destruct (active s); [|split; assumption].
+    destruct (step s (AttemptOk [])) as [s1 o1]. cbn [fst snd] in *.
+    destruct (lift_uops u s1 H1) as [H3 H4]. destruct (run s1 (map uop_event u)) as [s2 o2]. cbn [fst snd] in *.
+    split; [exact H3 | apply Forall_app; split; assumption].
+  Qed.
+End Lift.
+
 (* ------------------------------------------------------------------ 1. exactly one activity *)
 
 Definition info_agrees (s : st) : Prop :=
@@ -56,15 +112,16 @@ Definition Inv (s : st) : Prop :=
 Lemma inv_init : Inv init_state.
 Proof. unfold Inv, info_agrees; cbn. repeat split; try discriminate; auto. Qed.
 
-Lemma inv_step : forall s e, Inv s -> enabled s e = true -> Inv (fst (step s e)).
+Lemma inv_step0 : forall s e, simple e -> Inv s -> enabled s e = true -> Inv (fst (step s e)).
 Proof.
-  intros [a sp t d tm i w l inf] e (Hl & Ha & Hna & Ht & Hs) He.
+  intros [a sp t d tm i w l inf] e Hsimple (Hl & Ha & Hna & Ht & Hs) He.
   cbn [active stopped tub delay timer inflight watching leaked info timer_count] in *. subst l.
   destruct e; cbn [enabled active stopped tub delay timer inflight watching leaked info] in He; exec.
   - (* Start *) destruct t; [discriminate|]. destruct (Ht eq_refl) as (-> & -> & ->).
     destruct (Hna eq_refl) as (-> & _).
     destruct sp; exec; unfold Inv, info_agrees; cbn; repeat split; try discriminate; auto.
-  - (* AttemptOk *) apply Nat.ltb_lt in He. destruct i as [|i]; [lia|]. cbn [pred].
+  - (* AttemptOk *) destruct u as [|? ?]; [|destruct Hsimple]. exec.
+    apply Nat.ltb_lt in He. destruct i as [|i]; [lia|]. cbn [pred].
     destruct a; exec.
     + destruct (Ha eq_refl) as (-> & -> & Hc & _). unfold timer_count in Hc. cbn in Hc.
       destruct tm; [lia|]. assert (i = 0%nat) by lia. assert (w = 0%nat) by lia. subst.
@@ -112,6 +169,14 @@ Proof.
       try (destruct (Ht eq_refl) as (? & ? & ?); first [lia | assumption | discriminate]).
 Qed.
 
+Lemma inv_step : forall s e, Inv s -> enabled s e = true -> Inv (fst (step s e)).
+Proof.
+  intros s e HI He.
+  apply (lift_step Inv (fun _ => True) (fun s e => enabled s e = true)); try assumption; try reflexivity.
+  - intros s0 u H; exact H.
+  - intros s0 e0 S0 I0 E0. split; [apply inv_step0; assumption | apply Forall_forall; intros; exact I].
+Qed.
+
 Lemma inv_run : forall evs s, Inv s -> permitted s evs -> Inv (fst (run s evs)).
 Proof.
   induction evs as [|e r IH]; intros s HI HP; cbn [run permitted] in *; [exact HI|].
@@ -156,12 +221,26 @@ Proof.
 Qed.
 
 (* every event that can happen (a timer cannot expire: there is none) *)
+Lemma stopped_step0 : forall s e, simple e -> Stopped s -> enabled s e = true ->
+  Stopped (fst (step s e)) /\ Forall (fun o => silent o = true) (snd (step s e)) /\ leaked (fst (step s e)) = leaked s.
+Proof.
+  intros [a sp t d tm i w l inf] e Hsimple (H1 & H2 & H3) He. cbn in H1, H2, H3. subst.
+  destruct e as [|u| | | | | |]; [|destruct u as [|? ?]; [|destruct Hsimple]|..];
+    cbn in He; try discriminate; exec; try destruct t; exec; unfold Stopped; cbn;
+    repeat split; auto; repeat constructor.
+Qed.
+
 Lemma stopped_step : forall s e, Stopped s -> enabled s e = true ->
   Stopped (fst (step s e)) /\ Forall (fun o => silent o = true) (snd (step s e)) /\ leaked (fst (step s e)) = leaked s.
 Proof.
-  intros [a sp t d tm i w l inf] e (H1 & H2 & H3) He. cbn in H1, H2, H3. subst.
-  destruct e; cbn in He; try discriminate; exec; try destruct t; exec; unfold Stopped; cbn;
-    repeat split; auto; repeat constructor.
+  intros s e HS He.
+  destruct (lift_step (fun x => Stopped x /\ leaked x = leaked s) (fun o => silent o = true)
+                      (fun s e => enabled s e = true)) with (s := s) (e := e) as [[A B] C];
+    try reflexivity; try assumption; try (split; [assumption | reflexivity]).
+  - intros s0 u H; exact H.
+  - intros s0 e0 S0 [I0 L0] E0. destruct (stopped_step0 s0 e0 S0 I0 E0) as (X & Y & Z).
+    split; [split; [exact X | congruence] | exact Y].
+  - split; [exact A | split; [exact C | exact B]].
 Qed.
 
 Lemma stopped_run : forall evs s, Stopped s -> permitted s evs ->
@@ -248,15 +327,16 @@ Proof.
   - apply Q.le_min_r.
 Qed.
 
-Lemma rinv_step : forall Zmax s e,
-  0 <= Zmax -> Zmax * jitter <= 1 -> RInv Zmax s -> z_bounded Zmax e ->
+Lemma rinv_step0 : forall Zmax s e,
+  0 <= Zmax -> Zmax * jitter <= 1 -> simple e -> RInv Zmax s -> z_bounded Zmax e ->
   RInv Zmax (fst (step s e)) /\ Forall (out_in_range Zmax) (snd (step s e)).
 Proof.
-  intros Zmax [a sp t d tm i w l inf] e HZ HJ [Hd Ht] Hz. cbn [delay timer] in Hd, Ht.
+  intros Zmax [a sp t d tm i w l inf] e HZ HJ Hsimple [Hd Ht] Hz. cbn [delay timer] in Hd, Ht.
   assert (Hini : in_range Zmax initialDelay) by (destruct c_initial; apply in_range_small; assumption).
   destruct e; exec.
   - (* Start *) destruct sp; exec; unfold RInv; cbn; (split; [split; assumption | repeat constructor]).
-  - (* AttemptOk *) destruct a; exec; unfold RInv; cbn; (split; [split; assumption | repeat constructor]).
+  - (* AttemptOk *) destruct u as [|? ?]; [|destruct Hsimple]. exec.
+    destruct a; exec; unfold RInv; cbn; (split; [split; assumption | repeat constructor]).
   - (* AttemptFail *) cbn [z_bounded] in Hz. destruct Hz as [Hz1 Hz2].
     destruct (mu_ok Zmax d Hd) as [M0 M1].
     pose proof (jitter_in_range Zmax z _ HZ HJ Hz1 Hz2 M0 M1) as R.
@@ -279,6 +359,16 @@ Proof.
     + split; [split; [assumption | exact I] | repeat constructor].
   - (* Stop *) destruct tm as [q|]; exec; destruct t; exec; unfold RInv; cbn;
       (split; [split; [assumption | exact I] | repeat constructor]).
+Qed.
+
+Lemma rinv_step : forall Zmax s e,
+  0 <= Zmax -> Zmax * jitter <= 1 -> RInv Zmax s -> z_bounded Zmax e ->
+  RInv Zmax (fst (step s e)) /\ Forall (out_in_range Zmax) (snd (step s e)).
+Proof.
+  intros Zmax s e HZ HJ HR Hz.
+  apply (lift_step (RInv Zmax) (out_in_range Zmax) (fun _ e => z_bounded Zmax e)); try assumption;
+    try (intros; exact I).
+  intros s0 e0 S0 R0 Z0. apply rinv_step0; assumption.
 Qed.
 
 Theorem delay_range : forall Zmax evs,
@@ -350,14 +440,14 @@ Proof.
 Qed.
 
 Lemma step_ok : forall a sp t d tm i w l inf,
-  step (mkSt a sp t d tm (S i) w l inf) AttemptOk =
+  step (mkSt a sp t d tm (S i) w l inf) (AttemptOk []) =
   if a then (mkSt true sp t d tm i (S w) l IConnected, [OWatch; OCallback])
   else (mkSt false sp t d tm i w l inf, []).
 Proof. intros. destruct a; reflexivity. Qed.
 
 Theorem backoff_restarts : forall evs z,
-  permitted init_state (evs ++ [AttemptOk]) ->
-  let s := fst (run init_state (evs ++ [AttemptOk])) in
+  permitted init_state (evs ++ [AttemptOk []]) ->
+  let s := fst (run init_state (evs ++ [AttemptOk []])) in
   active s = true ->
   enabled s Lost = true /\
   let r := run s [Lost; TimerExpired; AttemptFail z] in
@@ -368,9 +458,9 @@ Proof.
   intros evs z HP s.
   destruct (permitted_app _ _ _ HP) as [HP1 HP2]. cbn [permitted] in HP2. destruct HP2 as [He _].
   pose proof (inv_run _ init_state inv_init HP1) as HI0.
-  assert (Es : s = fst (step (fst (run init_state evs)) AttemptOk)).
+  assert (Es : s = fst (step (fst (run init_state evs)) (AttemptOk []))).
   { unfold s. rewrite run_app. destruct (run init_state evs) as [s0 o0]. cbn [run fst].
-    destruct (step s0 AttemptOk) as [s1 o1]. reflexivity. }
+    destruct (step s0 (AttemptOk [])) as [s1 o1]. reflexivity. }
   clearbody s. subst s.
   destruct (fst (run init_state evs)) as [a sp t d tm i w l inf].
   cbn [enabled inflight] in He. apply Nat.ltb_lt in He. destruct i as [|i]; [lia|].
@@ -391,7 +481,7 @@ Theorem keeps_retrying : forall evs,
   let s := fst (run init_state evs) in
   active s = true ->
   (* one of the three is pending, and each of them leads to the next attempt: *)
-  (enabled s AttemptOk = true \/ enabled s Lost = true \/ enabled s TimerExpired = true) /\
+  (enabled s (AttemptOk []) = true \/ enabled s Lost = true \/ enabled s TimerExpired = true) /\
   (forall z, enabled s (AttemptFail z) = true ->
      exists d, snd (step s (AttemptFail z)) = [OSetTimer d] /\ timer (fst (step s (AttemptFail z))) = Some d
                /\ active (fst (step s (AttemptFail z))) = true) /\
@@ -417,7 +507,7 @@ Qed.
 
 Example ex_permitted :
   permitted init_state [Start; AttemptFail (1 # 2); TimerExpired; AttemptFail (-(8)); Elapse; Reset; TimerExpired;
-                        AttemptOk; Lost; TimerExpired; Stop; AttemptOk; Reset].
+                        AttemptOk [UReset]; Lost; TimerExpired; Stop; AttemptOk [UStop]; Reset].
 Proof. apply permittedb_ok. vm_compute. reflexivity. Qed.
 
 Example ex_active :
@@ -434,8 +524,8 @@ Proof.
 Qed.
 
 Example ex_backoff_premise :
-  permitted init_state ([Start; AttemptFail 2; TimerExpired; AttemptFail 2; TimerExpired] ++ [AttemptOk]) /\
-  active (fst (run init_state ([Start; AttemptFail 2; TimerExpired; AttemptFail 2; TimerExpired] ++ [AttemptOk]))) = true.
+  permitted init_state ([Start; AttemptFail 2; TimerExpired; AttemptFail 2; TimerExpired] ++ [AttemptOk []]) /\
+  active (fst (run init_state ([Start; AttemptFail 2; TimerExpired; AttemptFail 2; TimerExpired] ++ [AttemptOk []]))) = true.
 Proof. split; [apply permittedb_ok; vm_compute; reflexivity | vm_compute; reflexivity]. Qed.
 
 (* regression witness of the repaired defect (commit 6967c1e): stopConnecting while queued, then the Tub starts *)
